@@ -41,6 +41,7 @@ type vFSC54 struct {
 	size    map[int]int // model inode -> size
 	nextIno int
 	log     []string
+	flags   map[string]bool
 }
 
 var vDirsC54 = []string{"", "d1", "d2", "d1/s", "d2/t"}
@@ -149,6 +150,7 @@ func (m *vFSC54) group(label string, k int) {
 		// a further link that is not part of the backup
 		m.fail(os.Link(m.full(first), filepath.Join(m.outside, fmt.Sprintf("o%d", m.ents[first].Inode))))
 		m.log = append(m.log, "outside link of "+first)
+		m.flags["link-outside-backup"] = true
 	}
 }
 
@@ -175,6 +177,7 @@ func (m *vFSC54) initial() {
 					m.fail(os.Link(m.full(p), m.full(q)))
 					m.ents[q] = &vEntC54{Kind: 'l'}
 					m.log = append(m.log, "hard-linked symlink "+p+" "+q)
+					m.flags["hard-linked-symlink"] = true
 				}
 			}
 		}
@@ -184,7 +187,9 @@ func (m *vFSC54) initial() {
 // edit changes the tree between two snapshots.
 func (m *vFSC54) edit(i int) {
 	l := fmt.Sprintf("e%d", i)
-	switch kind := rapid.SampledFrom([]string{"add-link", "remove-path", "resize", "new-file", "new-group", "break-link"}).Draw(m.t, l+"kind"); kind {
+	kind := rapid.SampledFrom([]string{"add-link", "remove-path", "resize", "new-file", "new-group", "break-link"}).Draw(m.t, l+"kind")
+	m.flags["edit="+kind] = true
+	switch kind {
 	case "add-link":
 		if p, ok := m.pickFile(l+"from", func(string, int) bool { return true }); ok {
 			m.link(p, l)
@@ -354,10 +359,10 @@ func TestVerifC54StatsRestoreSize(t *testing.T) {
 		if err := e.Init("2"); err != nil {
 			t.Fatal(err)
 		}
-		m := &vFSC54{t: t, root: e.Scratch("root-"), outside: e.Scratch("outside-"), ents: map[string]*vEntC54{}, size: map[int]int{}}
+		m := &vFSC54{t: t, root: e.Scratch("root-"), outside: e.Scratch("outside-"), ents: map[string]*vEntC54{}, size: map[int]int{}, flags: map[string]bool{}}
 		m.initial()
 
-		nSnap := rapid.IntRange(1, 3).Draw(t, "snapshots")
+		nSnap := rapid.SampledFrom([]int{1, 2, 2, 3, 3}).Draw(t, "snapshots")
 		var snaps []vSnapModelC54
 		for i := 0; i < nSnap; i++ {
 			if i > 0 {
@@ -370,6 +375,7 @@ func TestVerifC54StatsRestoreSize(t *testing.T) {
 			if _, ok1 := m.ents["d1"]; ok1 {
 				if _, ok2 := m.ents["d2"]; ok2 && rapid.IntRange(0, 3).Draw(t, "split-targets") == 0 {
 					targets = []string{"d1", "d2"}
+					m.flags["split-targets"] = true
 				}
 			}
 			var abs []string
@@ -391,7 +397,7 @@ func TestVerifC54StatsRestoreSize(t *testing.T) {
 		}
 
 		// selection
-		sel := rapid.SampledFrom([]string{"all", "ids", "latest"}).Draw(t, "selection")
+		sel := rapid.SampledFrom([]string{"all", "all", "ids", "ids", "latest"}).Draw(t, "selection")
 		var args []string
 		var chosen []vSnapModelC54
 		switch sel {
@@ -439,6 +445,12 @@ func TestVerifC54StatsRestoreSize(t *testing.T) {
 		if maxLinks >= 3 {
 			key = fmt.Sprintf("%v|%v|%s", m.log, args, sel)
 		}
+		var fl []string
+		for f := range m.flags {
+			fl = append(fl, f)
+		}
+		sort.Strings(fl)
+		st.Class(fl...)
 		st.Case(key, "selection="+sel, fmt.Sprintf("snapshots=%d", len(chosen)), fmt.Sprintf("max-links=%d", min(maxLinks, 5)),
 			fmt.Sprintf("groups>=2:%v", groups >= 2), fmt.Sprintf("empty-file=%v", empty), fmt.Sprintf("cross-directory-group=%v", cross),
 			fmt.Sprintf("no-group=%v", groups == 0))
